@@ -14,6 +14,7 @@ import (
 	"bufio"
 	"bytes"
 	"io"
+	"math/big"
 )
 
 // ---------------------------------------------------------------------------
@@ -322,8 +323,8 @@ type vcBuffer struct {
 	data []byte
 }
 
-func vcBufferOf(b *bytes.Buffer) *vcBuffer       { return nil }
-func vcBufferOfWriter(w io.Writer) *vcBuffer     { return nil }
+func vcBufferOf(b *bytes.Buffer) *vcBuffer      { return nil }
+func vcBufferOfWriter(w io.Writer) *vcBuffer    { return nil }
 func vcModelBufferBytes(b *bytes.Buffer) []byte { return vcBufferOf(b).data }
 
 // io.CopyN(dst, src, n) with src a *bufio.Reader and dst an empty *bytes.Buffer: copies
@@ -382,7 +383,7 @@ func bsPos(b *bitstream) bool { return len(b.stack.arr) == 0 || b.pos <= bsTopEn
 // field-id states occur only inside a struct.
 func bsLocal(b *bitstream) bool {
 	return bsStream(b) && b.state <= bssOnFieldID && bsPos(b) &&
-		(b.state != bssOnValue || (b.code == bitcodeBVM && len(b.stack.arr) == 0) || b.len <= bsRem(b)) &&
+		(b.state != bssOnValue || (b.code == bitcodeBVM && len(b.stack.arr) == 0 && b.len == 3) || (b.code != bitcodeBVM && b.len <= bsRem(b))) &&
 		(b.state == bssOnValue || (!b.null && b.len == 0)) &&
 		((b.state != bssBeforeFieldID && b.state != bssOnFieldID) || bsInStruct(b))
 }
@@ -399,10 +400,10 @@ func bsInv(b *bitstream) bool { return bsLocal(b) && bsNested(b) }
 
 // bsS is the ghost stream of b; bsAvail the bytes it still holds; bsByte the byte i
 // positions after the cursor.
-func bsS(b *bitstream) *vcStream     { return vcStreamOf(b.in) }
-func bsAvail(b *bitstream) int       { return len(vcStreamOf(b.in).data) - vcStreamOf(b.in).cur }
+func bsS(b *bitstream) *vcStream      { return vcStreamOf(b.in) }
+func bsAvail(b *bitstream) int        { return len(vcStreamOf(b.in).data) - vcStreamOf(b.in).cur }
 func bsByte(b *bitstream, i int) byte { return vcStreamOf(b.in).data[vcStreamOf(b.in).cur+i] }
-func bsTop(b *bitstream) bool        { return len(b.stack.arr) == 0 }
+func bsTop(b *bitstream) bool         { return len(b.stack.arr) == 0 }
 
 // bsRem: bytes left in the innermost container; at top level what an offset can still
 // address.
@@ -494,6 +495,145 @@ func specVarIntValue(data []byte, p int, n uint64) int64 {
 		return -v
 	}
 	return v
+}
+
+// specBEValue: big-endian fold of the n (at most 8) bytes at data[p:] (Ion binary spec,
+// "UInt and Int Fields": the magnitude of an Int or UInt subfield).
+func specBEValue(data []byte, p int, n uint64) uint64 {
+	v := uint64(0)
+	for i := uint64(0); i < 8; i++ {
+		if i < n {
+			v = v<<8 | uint64(data[p+int(i)])
+		}
+	}
+	return v
+}
+
+// Views of a boxed value (interface{}) for contracts.
+func vcIsInt64(x interface{}) bool       { _, ok := x.(int64); return ok }
+func vcAsInt64(x interface{}) int64      { v, _ := x.(int64); return v }
+func vcIsBigInt(x interface{}) bool      { _, ok := x.(*big.Int); return ok }
+func vcAsBigInt(x interface{}) *big.Int  { v, _ := x.(*big.Int); return v }
+func vcIsBool(x interface{}) bool        { _, ok := x.(bool); return ok }
+func vcIsFloat64(x interface{}) bool     { _, ok := x.(float64); return ok }
+func vcIsString(x interface{}) bool      { _, ok := x.(string); return ok }
+func vcIsBytes(x interface{}) bool       { _, ok := x.([]byte); return ok }
+func vcIsDecimal(x interface{}) bool     { v, ok := x.(*Decimal); return ok && v != nil }
+func vcIsTimestamp(x interface{}) bool   { _, ok := x.(Timestamp); return ok }
+func vcIsSymbolToken(x interface{}) bool { v, ok := x.(*SymbolToken); return ok && v != nil }
+func vcIsType(x interface{}) bool        { _, ok := x.(Type); return ok }
+func vcIsBinaryReader(r Reader) bool     { v, ok := r.(*binaryReader); return ok && v != nil }
+func vcAsBinaryReader(r Reader) *binaryReader {
+	v, _ := r.(*binaryReader)
+	return v
+}
+
+// rdValueWF: the representation invariant of a reader's current value: a non-null value
+// is boxed as the Go type the accessors of its Ion type unbox.
+func rdValueWF(r *reader) bool {
+	if r.value == nil {
+		return true
+	}
+	switch r.valueType {
+	case BoolType:
+		return vcIsBool(r.value)
+	case IntType:
+		return vcIsInt64(r.value) || (vcIsBigInt(r.value) && vcAsBigInt(r.value) != nil)
+	case FloatType:
+		return vcIsFloat64(r.value)
+	case DecimalType:
+		return vcIsDecimal(r.value)
+	case TimestampType:
+		return vcIsTimestamp(r.value)
+	case SymbolType:
+		return vcIsSymbolToken(r.value)
+	case StringType:
+		return vcIsString(r.value)
+	case ClobType, BlobType:
+		return vcIsBytes(r.value)
+	case ListType, SexpType, StructType:
+		return vcIsType(r.value)
+	}
+	return false
+}
+
+// ---------------------------------------------------------------------------
+// binaryReader: representation invariant.
+
+// brContainer: a non-null container value has not been consumed: the bitstream still
+// stands on it (StepIn enters it there).
+func brContainer(r *binaryReader) bool {
+	if r.value == nil {
+		return true
+	}
+	switch r.valueType {
+	case ListType:
+		return r.bits.state == bssOnValue && !r.bits.null && r.bits.code == bitcodeList
+	case SexpType:
+		return r.bits.state == bssOnValue && !r.bits.null && r.bits.code == bitcodeSexp
+	case StructType:
+		return r.bits.state == bssOnValue && !r.bits.null && r.bits.code == bitcodeStruct
+	}
+	return true
+}
+
+// brTable: a symbol table is in force, except before the very first value of a stream
+// that NewReaderCat has seen to start with a version marker (E0 .. .. EA).
+func brTable(r *binaryReader) bool {
+	return r.lst != nil ||
+		(r.bits.pos == 0 && r.bits.state == bssBeforeValue && len(r.bits.stack.arr) == 0 && bsAvail(&r.bits) >= 4 && bsByte(&r.bits, 0) == 0xE0)
+}
+
+// brInv: the bitstream invariant; the context stack mirrors the bitstream's container
+// stack; the current value is boxed as its accessors expect.
+func brInv(r *binaryReader) bool {
+	return bsInv(&r.bits) && len(r.ctx.arr) == len(r.bits.stack.arr) && rdValueWF(&r.reader) && brContainer(r) && brTable(r)
+}
+
+// specIonType: the Ion type of the value a descriptor octet starts (Ion binary spec,
+// "Typed Value Formats"); NoType for descriptors that start no user value.
+func specIonType(t byte) Type {
+	switch t >> 4 {
+	case 0:
+		if t&0x0F == 15 {
+			return NullType
+		}
+		return NoType // NOP pad
+	case 1:
+		return BoolType
+	case 2, 3:
+		return IntType
+	case 4:
+		return FloatType
+	case 5:
+		return DecimalType
+	case 6:
+		return TimestampType
+	case 7:
+		return SymbolType
+	case 8:
+		return StringType
+	case 9:
+		return ClobType
+	case 10:
+		return BlobType
+	case 11:
+		return ListType
+	case 12:
+		return SexpType
+	case 13:
+		return StructType
+	}
+	return NoType
+}
+
+// bsOn: the stream is positioned on a non-null value of the given kind.
+func bsOn(b *bitstream, c bitcode) bool { return b.state == bssOnValue && b.code == c && !b.null }
+
+// bsConsumed: the cursor effect shared by every ReadX and by SkipValue: the value's len
+// bytes are consumed, the stream is after the value, the value fields are clear.
+func bsConsumed(b *bitstream, pos0 uint64, cur0 int, len0 uint64) bool {
+	return b.pos == pos0+len0 && vcStreamOf(b.in).cur == cur0+int(len0) && b.state == bsAfter(b) && bsCleared(b)
 }
 
 // ---------------------------------------------------------------------------
